@@ -457,7 +457,8 @@ class Unit:
                 sub = None
             elif name == "importfn":
                 # @importfn <unit> <rel> <fn path> : contract proved in another unit, reused here as external_body
-                ou, rel, nm = arg.split()[:3]
+                ou, rel = arg.split()[:2]
+                nm = re.findall(r'"([^"]*)"', arg)[0] if '"' in arg else arg.split()[2]
                 other = Unit(os.path.join(os.path.dirname(self.path), ou + ".vspec"))
                 src_items = [i for i in other.items if i["kind"] == "fn" and i["name"] == nm and i["rel"] == rel]
                 if len(src_items) != 1:
@@ -467,9 +468,15 @@ class Unit:
                 item["external"] = True
                 item["imported_from"] = ou
                 item["loops"], item["ats"], item["arounds"], item["closurefns"], item["callmap"], item["letty"] = {}, [], [], {}, [], {}
-                item["opts"] = []
+                item["opts"] = [o for o in oi.get("opts", []) if o in ("inherent", "free") or o.startswith("as=")]
                 item["clauses"] = []
+                try:
+                    _kf = {k["clause"] for k in json.load(open(os.path.join(VERIF, "known_findings.json"))).get("findings", [])}
+                except Exception:
+                    _kf = set()
                 for c in oi["clauses"]:
+                    if c.id in _kf:
+                        continue  # an obligation that is a recorded known finding does NOT hold: it must not be assumed elsewhere
                     if c.kind in ("requires", "ensures"):
                         # within this unit the imported clause serves every property of this unit as an assumption
                         item["clauses"].append(Clause(c.kind, "import." + ou + "." + c.id, list(self.props), [], c.text, c.where))
@@ -485,6 +492,11 @@ class Unit:
             elif name == "letty":
                 a, b = full.split(":", 1)
                 item["letty"][a.strip()] = b.strip()
+            elif name == "iterloop":
+                item.setdefault("iterloops", []).extend(full.split())
+            elif name == "callfn":
+                a, b = [x.strip() for x in full.split("=>")]
+                item.setdefault("callfns", []).append((a, b))
             elif name == "strvar":
                 item.setdefault("strvars", []).extend(full.split())
             elif name == "binop":
@@ -1024,6 +1036,16 @@ class Gen:
                     ed.insert(b["e"] - 1, f" {i_pat} += {inc}; ", ("rule", "R30"))
                     loops[idx] = (n, "chars_index")
                     self.fired("R30")
+                elif itx["k"] == "Path" and itx["a"]["path"] in it.get("iterloops", []):
+                    # R41: `for X in IT { B }` over a user-defined iterator whose `next` is under contract -> `while let Some(X) = it.next()`
+                    if any(x["k"] in ("Continue", "Break") for x in walk(b)):
+                        raise Inconclusive(f"unsupported construct: break/continue in an iterator for-loop at {src.rel}:{src.line_of(n['s'])}")
+                    ed.replace(n["s"], p["s"], f"let mut __iter{idx} = {T(itx)};\n        while let Some(", ("rule", "R41"))
+                    ed.replace(p["e"], b["s"], f") = __iter{idx}.next()", ("rule", "R41"))
+                    for t, o in pieces:
+                        ed.insert(b["s"], t, o)
+                    loops[idx] = (n, "for")
+                    self.fired("R41")
                 elif itx["k"] == "Range" or (itx["k"] == "Paren" and kid(itx, "expr")["k"] == "Range"):
                     for t, o in pieces:
                         ed.insert(b["s"], t, o)
@@ -1400,6 +1422,29 @@ class Gen:
                 ed.replace(A["e"], n["e"], ")", ("rule", "R40"))
                 self.fired("R40")
 
+        # @callfn <path>#k => helper : the k-th call of a free function / associated function is redirected to a prelude shim
+        for spec_, helper in it.get("callfns", []):
+            pth, _, k = spec_.partition("#")
+            calls = [n for n in walk(body) if n["k"] == "Call" and norm(n["a"]["func"]) == norm(pth)]
+            k = int(k or 0)
+            if k >= len(calls):
+                raise Inconclusive(f"lost anchor: {it['name']}: call #{k} of {pth} not found ({len(calls)} calls)")
+            f = kid(calls[k], "func")
+            ed.replace(f["s"], f["e"], helper, ("rule", "callfn"))
+            self.fired("callfn")
+        # R42: `S.iter().map(|s| s as &str).collect::<Vec<_>>()`  ->  __strs_of(&S)
+        for n in walk(body):
+            if n["k"] == "MethodCall" and n["a"]["method"] == "collect" and kid(n, "receiver")["k"] == "MethodCall" and kid(n, "receiver")["a"]["method"] == "map":
+                mp = kid(n, "receiver")
+                clo = kids(mp, "arg")[0]
+                if clo["k"] == "Closure" and kid(clo, "body")["k"] == "Cast" and norm(kid(clo, "body")["a"]["ty"]) == "&str" \
+                        and kid(mp, "receiver")["k"] == "MethodCall" and kid(mp, "receiver")["a"]["method"] == "iter":
+                    S = kid(kid(mp, "receiver"), "receiver")
+                    ed.replace(n["s"], S["s"], "__strs_of(&", ("rule", "R42"))
+                    ed.replace(S["e"], n["e"], ")", ("rule", "R42"))
+                    n["_handled"] = True
+                    self.fired("R42")
+
         # R15: X.clone().or_else(|| Y.clone())  ->  __clone_or_else(&X, &Y)   (X, Y verbatim)
         # R14: V.extend(E)                       ->  __vec_extend(&mut V, E)
         for n in walk(body):
@@ -1615,7 +1660,7 @@ class Gen:
             self.reg(cl)
             for s in hits:
                 if before:
-                    ed.insert(s["s"], before + " ", ("clause", cl.id))
+                    ed.insert(s["s"], before + " ", ("clause", cl.id), prio=-1)
                 semi = "" if s["a"].get("semi") or s["k"] != "StmtExpr" else ";"
                 if after:
                     ed.insert(s["e"], semi + " " + after, ("clause", cl.id))
@@ -1632,6 +1677,10 @@ class Gen:
                 te = last[-1]
                 ed.insert(te["s"], "let __r = ", ("glue",))
                 ed.insert(te["e"], ";\n" + cl.text + "\n__r", ("clause", cl.id))
+                continue
+            if anchor.strip() == "first":
+                # the very beginning of the body, before generated reveals (Verus wants `hide(..)` headers there)
+                ed.insert(body["s"] + 1, "\n" + cl.text + "\n", ("clause", cl.id), prio=-2)
                 continue
             pos = self.resolve_anchor(it, src, body, loops, anchor)
             if anchor.strip() == "end":
